@@ -12,6 +12,7 @@ import (
 	"math/big"
 	"os"
 	"reflect"
+	"sort"
 	"strconv"
 	"strings"
 	"time"
@@ -507,6 +508,48 @@ func (v *c05JV) yamlView() c05JV {
 		return c05JV{T: "obj", M: m}
 	}
 	return *v
+}
+
+// c05ParseJSON turns JSON text (e.g. a declared default=[{...}]) into a document node.
+func c05ParseJSON(text string) (c05JV, bool) {
+	dec := json.NewDecoder(strings.NewReader(text))
+	dec.UseNumber()
+	var v any
+	if err := dec.Decode(&v); err != nil {
+		return c05JV{}, false
+	}
+	return c05FromAny(v), true
+}
+
+func c05FromAny(v any) c05JV {
+	switch x := v.(type) {
+	case nil:
+		return c05Null()
+	case bool:
+		return c05Bool(x)
+	case string:
+		return c05Str(x)
+	case json.Number:
+		return c05Num(x.String())
+	case []any:
+		l := make([]c05JV, len(x))
+		for i := range x {
+			l[i] = c05FromAny(x[i])
+		}
+		return c05JV{T: "arr", L: l}
+	case map[string]any:
+		keys := make([]string, 0, len(x))
+		for k := range x {
+			keys = append(keys, k)
+		}
+		sort.Strings(keys)
+		m := make([]c05KV, 0, len(x))
+		for _, k := range keys {
+			m = append(m, c05KV{K: k, V: c05FromAny(x[k])})
+		}
+		return c05JV{T: "obj", M: m}
+	}
+	return c05Null()
 }
 
 func c05Sprint(v reflect.Value) string {
